@@ -114,6 +114,13 @@ def opMerkle (args : List String) (impl : String) : Verdict :=
             | _, _ => none
           | none, _, _ => none
         ({ s with outs := out :: s.outs, l1 := l1 }, io)
+      | ["isempty"] =>
+        -- `is_empty()`: model output only (L2); the property does not speak about it
+        let io := io.drop 1
+        let out := match isEmpty s.tree with
+          | .ok b => "isempty=" ++ (if b then "true" else "false")
+          | _ => "isempty=panic"
+        ({ s with outs := out :: s.outs }, io)
       | ["fresh"] =>
         -- the same batch on a fresh tree object: impl prints `fresh=<root>`; must equal the reused tree's root
         let implOut := io.headD "?"
